@@ -138,11 +138,11 @@ Proof.
   - destruct (find_uni _ _) as [x|]; cbn [fst snd].
     + destruct (R_apply_dmx st c x d p P) as (A & B0 & C0).
       split; [exact A|]. split; [exact B0|]. split; [exact C0|reflexivity].
-    + split; [apply R_refl|]. split; [exact P|]. split; reflexivity.
+    + split; [repeat split; reflexivity|]. split; [exact P|]. split; reflexivity.
   - destruct (find_uni _ _) as [x|]; cbn [fst snd].
     + destruct (R_apply_dmx st c x d p P) as (A & B0 & C0).
       split; [exact A|]. split; [exact B0|]. split; [exact C0|reflexivity].
-    + split; [apply R_refl|]. split; [exact P|]. split; reflexivity.
+    + split; [repeat split; reflexivity|]. split; [exact P|]. split; reflexivity.
   - destruct (find_uni _ _); cbn; (split; [apply R_refl|]; split; [exact P|]; split; reflexivity).
   - destruct on; destruct (find_uni _ _); cbn;
       (split; [repeat split; reflexivity|]; split; [exact P|]; split; reflexivity).
